@@ -5,8 +5,10 @@ from .ir import Module
 
 
 @functools.lru_cache(maxsize=None)
-def lib_module(config="ndebug", witness=("wrap",)):
-    return Module(lib_facts(config, witness))
+def lib_module(config="ndebug", witness=("wrap",), inline=()):
+    """`inline`: file-local helper functions to be inlined into their callers before analysis (a rule written for one function
+    still applies when that function has been split into static helpers)"""
+    return Module(lib_facts(config, witness, tuple(inline)))
 
 
 def configs_for(tier):
@@ -23,3 +25,23 @@ def need_fn(mod, name):
     if f is None:
         raise AnalysisBroken("anchor function vanished: %s" % name)
     return f
+
+
+def local_helpers_of(mod, fn):
+    """names of the file-local functions fn reaches (transitively) - the helpers it may have been split into"""
+    work = [fn]; seen = set()
+    while work:
+        x = work.pop()
+        for c in x.calls():
+            h = mod.fn(c.get("callee") or "")
+            if h is not None and h.internal and h.blocks and h.name not in seen and h is not fn:
+                seen.add(h.name); work.append(h)
+    return sorted(seen)
+
+
+def with_helpers_inlined(mod, fn, config):
+    """(module, function) where fn's file-local helpers have been inlined into it; (None, None) if it has none"""
+    plan = local_helpers_of(mod, fn)
+    if not plan: return None, None
+    m2 = lib_module(config, inline=tuple(plan))
+    return m2, need_fn(m2, fn.name)
